@@ -396,7 +396,12 @@ class Ctx:
         stats, err = gen_tables()
         if stats is None:
             self.broke("P", "translator", err)
-            self.model_ok = False
+            # the tables of the lost generator are the committed baseline copies: build the model only, so that the K and S legs can
+            # still run it against the implementation and look for a failing input (the tie is reported as broken in any case)
+            model_targets = [t for t in self.model_targets(list(targets) + list(k_targets))] + list(k_targets)
+            ok2, _ = coq_make(model_targets) if model_targets else (False, "")
+            self.model_ok = ok2
+            self.coverage["search_mode"] = "translator anchor lost: the model legs ran on the baseline tables (data/gen_baseline) only to look for a failing input"
             return p
         p["translator"] = stats
         ok, log = coq_make(list(targets) + list(k_targets))
